@@ -111,6 +111,16 @@ def round_to_f32(q):
     return sgn * fl * sp.Integer(2) ** e
 
 
+def peel_ref_mut(a):
+    """The place expression of an argument written `&mut place` (None for anything else)."""
+    x = a
+    while isinstance(x, dict) and x.get("k") in ("Paren", "DropTemps", "Use"):
+        x = x.get("e")
+    if isinstance(x, dict) and x.get("k") in ("Ref", "AddrOf") and ("mut" in str(x.get("mut", "")).lower() or x.get("mut") is True or x.get("m") == "Mut"):
+        return x["e"]
+    return None
+
+
 def lit_value(n, decimal=True):
     if n["lit"] == "int":
         return sp.Integer(int(n["v"]))
@@ -474,7 +484,51 @@ class Interp:
             return sp.Integer(0)
         if d in self.local_fns:
             return self.inline(self.local_fns[d], [self.ev(a) for a in n["args"]], n)
+        # a private helper of the crate (free function): evaluate its body in place, so that extracting a helper does not change the verdict
+        cands = self.F.by_path.get(d, []) if hasattr(self.F, "by_path") else []
+        if len(cands) == 1 and not cands[0].get("impl_self") and self.inline_depth < 6:
+            return self.inline_here(cands[0], n["args"], n)
         raise Unsupported(n, "call of %s" % d)
+
+    inline_depth = 0
+
+    def inline_here(self, body, arg_nodes, n, recv_value=None):
+        """Evaluate a crate-local function body with *this* interpreter (shared fields, decisions, hooks and user-call log); the caller's locals
+        are set aside for the duration.  Arguments passed as `&mut place` are written back from the callee's parameters."""
+        args = [self.ev(a) for a in arg_nodes]
+        saved_env, saved_names = self.env, self.names
+        self.env, self.names = {}, {}
+        self.inline_depth += 1
+        params = list(body["params"])
+        finals = None
+        try:
+            vals = ([recv_value] if recv_value is not None else []) + args
+            if len(params) != len(vals):
+                raise Unsupported(n, "arity mismatch inlining %s" % body["path"])
+            for p_, a_ in zip(params, vals):
+                self.bind(p_, a_, n)
+            try:
+                res = self.ev(body["body"])
+            except Return as r:
+                res = r.value
+            finals = [self.env.get(pid) for prm in params for (pid, _) in pat_binds(prm)][:len(params)]
+            pids = [[pid for (pid, _) in pat_binds(prm)] for prm in params]
+        finally:
+            callee_env = self.env
+            self.env, self.names = saved_env, saved_names
+            self.inline_depth -= 1
+        off = 1 if recv_value is not None else 0
+        for k_, an in enumerate(arg_nodes):
+            a0 = peel_ref_mut(an)
+            if a0 is None:
+                continue
+            ids = pids[k_ + off]
+            if len(ids) == 1 and ids[0] in callee_env:
+                try:
+                    self.assign(a0, callee_env[ids[0]], n)
+                except Unsupported:
+                    pass
+        return res
 
     def user_call(self, pl, args, n):
         flat = []
